@@ -578,6 +578,18 @@ func (e *env) modelDeleteDigest(rn, d string) {
 			}
 		}
 	}
+	// ... also through a parent that was itself deleted by digest: its blob stays in the store until it is collected,
+	// and a reload re-lists it (and with it d) when something above it is still present
+	for od, o := range mr.everMans {
+		if _, blobThere := mr.blobs[od]; !blobThere || !o.isIndex || mr.mans[od] != nil {
+			continue
+		}
+		for _, c := range o.refs {
+			if c == d {
+				mr.markFuzzy(d)
+			}
+		}
+	}
 }
 
 // allBlobs returns digests of plain (non-manifest) blobs of a repository, sorted.
